@@ -10,6 +10,8 @@ UNITS = {
 }
 # property -> clauses of the statement that no contract decides (reported in the evidence)
 UNDECIDED_CLAUSES = {
+    "C06": ["that the async resolver passes exactly the validated records on to cache.insert_all and the answer (read, not proved)",
+            "query_nameserver's transport (UDP/TCP fallback, timeouts)"],
     "C05": ["interleavings with other threads (single Mutex, trusted)", "a lookup through the async resolvers (only the cache API is under contract)"],
     "C15": ["concurrent use from 2..8 threads (single Mutex around every operation: trusted, not modelled)",
             "least-recently-used ORDER rests on the trusted PriorityQueue model (pop returns a minimal instant)"],
